@@ -38,10 +38,21 @@ func addTarget(thorough bool, chunk int, name string, rawQ, rawT int, run func(e
 func buildTargets(thorough bool) {
 	targets = nil
 	addTarget(thorough, 4096, "store.TxHeader.ReadFrom", 3, 3, func(_ *enc, in []byte) string {
-		return outErr(new(store.TxHeader).ReadFrom(in))
+		h := new(store.TxHeader)
+		err := h.ReadFrom(in)
+		if err == nil { // an accepted header must be usable: hashed and serialized again
+			h.Alh()
+			h.Bytes()
+		}
+		return outErr(err)
 	})
 	addTarget(thorough, 4096, "store.TxMetadata.ReadFrom", 3, 3, func(_ *enc, in []byte) string {
-		return outErr(store.NewTxMetadata().ReadFrom(in))
+		md := store.NewTxMetadata()
+		err := md.ReadFrom(in)
+		if err == nil {
+			md.Bytes()
+		}
+		return outErr(err)
 	})
 	// NewMetadata + the typed getters its callers use (singleapp.Open, store.OpenWith, tbtree.OpenWith call
 	// GetInt / GetBool on whatever the file contained).
